@@ -24,7 +24,7 @@ from hypothesis import strategies as st
 from vf import cxx
 from vf.core import Ctx, Discard, Stats, Violation, derive_seed, hyp_search, jdump, run_shards
 from vf.gen.metadata import job_scripts, simple_cpp_functions, valid_code_blocks
-from vf.gen.query import Features, queries
+from vf.gen.query import Features, dataset_text, queries
 from vf.model.events import Event, events_strategy, write_events
 from vf.model.schema import standard_schema
 from vf.xlate import BACKENDS, translate
@@ -78,8 +78,18 @@ def block_stats(src: str):
     return blocks_with_decl
 
 
-def check(text, backend, evs, user_strings=()):
+def set_name_counter(n: int):
+    """the translator numbers the C++ names it generates from a process-wide counter: n = what a process that has generated n names so far holds"""
+    import func_adl_xAOD.common.cpp_vars as cv
+
+    cv.unique_var_index = n
+
+
+def check(text, backend, evs, user_strings=(), name_counter=None):
     rep = {"backend": backend, "query": text, "events": [e.to_json() for e in evs]}
+    if name_counter is not None:
+        rep["name_counter"] = name_counter
+        set_name_counter(name_counter)
     out = tempfile.mkdtemp(prefix="vf_c02_")
     try:
         try:
@@ -150,6 +160,52 @@ def check(text, backend, evs, user_strings=()):
         shutil.rmtree(out, ignore_errors=True)
 
 
+@st.composite
+def young_process_cases(draw, backend):
+    """a young process (name counter near 0) and 12-24 columns whose names differ by a digit at the end: 'pt1' ... 'pt' ten columns later.  The
+    translator's names are base name + running index: two columns must never get the same C++ name, whatever the indices are."""
+    sch = standard_schema(backend)
+    col = [c for c in sch.colls if not c.singleton][0]
+    nums = [m.name for m in sch.classes[col.element].methods if m.kind == "num" and not m.enum and not m.tree_type and not m.member][:3]
+    stem = draw(st.sampled_from(["pt", "x", "jet_e", "v2_"]))
+    a = draw(st.integers(0, 3))
+    gap = 10
+    ncols = a + gap + 1 + draw(st.integers(0, 4))
+    names = [f"k{i}_" for i in range(ncols)]
+    names[a] = stem + "1"
+    names[a + gap] = stem
+    if ncols > a + gap + 2 and draw(st.booleans()):
+        names[a + 1] = stem + "1" + draw(st.sampled_from(["a", "_"]))
+    body = "{" + ", ".join(f"{n!r}: j.{nums[i % len(nums)]}()" for i, n in enumerate(names)) + "}"
+    text = f"Select(SelectMany({dataset_text(sch)}, lambda e: e.{col.accessor}({col.banks[0]!r})), lambda j: {body})"
+    evs = draw(events_strategy(sch, [(col.accessor, col.banks[0])], n_min=1, n_max=1))
+    return text, evs
+
+
+@st.composite
+def odd_conditionals(draw, backend):
+    """a conditional expression whose arms are not numbers (a string argument, a vector, an object): accepted or refused is the translator's choice,
+    but what it accepts has to compile"""
+    sch = standard_schema(backend)
+    col = [c for c in sch.colls if not c.singleton][0]
+    cls = sch.classes[col.element]
+    nums = [m.name for m in cls.methods if m.kind == "num" and not m.enum and not m.tree_type and not m.member and m.ctype != "bool"]
+    vecs = [m.name for m in cls.methods if m.kind == "vec"]
+    links = [m.name for m in cls.methods if m.kind == "obj"]
+    test = f"j.{draw(st.sampled_from(nums))}() > {draw(st.sampled_from(['0', '1.5']))}"
+    forms = [f"(j.{nums[0]}() if {test} else 'x')", f"('a' if {test} else 'b') == 'a'"]
+    if backend == "atlas":
+        forms.append(f"j.getAttributeFloat('width' if {test} else 'emf')")
+    if vecs:
+        forms += [f"(j.{vecs[0]}() if {test} else j.{vecs[-1]}()).Count()", f"(j.{vecs[0]}() if {test} else j.{vecs[0]}())"]
+    if links:
+        forms.append(f"(j if {test} else j.{links[0]}()).{nums[0]}()")
+    body = draw(st.sampled_from(forms))
+    text = f"Select(SelectMany({dataset_text(sch)}, lambda e: e.{col.accessor}({col.banks[0]!r})), lambda j: {body})"
+    evs = draw(events_strategy(sch, [(col.accessor, col.banks[0])], n_min=1, n_max=1))
+    return text, evs
+
+
 def case_key(case):
     q, evs, blocks = case
     return jdump([q.text, [e.to_json() for e in evs]])
@@ -167,6 +223,25 @@ def worker(payload):
         stats.case(norm, nb >= 2 and ncv >= 1, labels, {"backend": backend, "query": q.text[-400:], "blocks_with_declarations": nb, "class_variables": ncv})
 
     hyp_search(body, case_strategy(backend), max_examples=n, seed=seed, stats=stats, deadline=deadline, key_fn=case_key, shrink_budget=60)
+
+    def young_body(case):
+        text, evs = case
+        # every starting value a young process can have when it names the columns
+        for counter in range(0, 10):
+            check(text, backend, evs, name_counter=counter)
+        stats.case("young:" + text[-300:], True, [f"backend={backend}", "young-process-column-names"], {"backend": backend, "query": text[-200:], "name_counters": "0..9"})
+
+    def odd_body(case):
+        text, evs = case
+        try:
+            check(text, backend, evs)
+            res = "accepted-and-compiles"
+        except Discard:
+            res = "refused"
+        stats.case("odd:" + text[-200:], True, [f"backend={backend}", "conditional-with-non-numeric-arms", "outcome=" + res], {"backend": backend, "query": text[-160:], "outcome": res})
+
+    hyp_search(odd_body, odd_conditionals(backend), max_examples=max(2, n // 8), seed=derive_seed(seed, "odd"), stats=stats, deadline=deadline, shrink=False, max_rounds=1)
+    hyp_search(young_body, young_process_cases(backend), max_examples=max(1, n // 20), seed=derive_seed(seed, "young"), stats=stats, deadline=deadline, shrink=False, max_rounds=1)
     return stats
 
 
@@ -186,7 +261,7 @@ def run(ctx: Ctx):
 def replay(case):
     evs = [Event.from_json(j) for j in case["events"]]
     try:
-        check(case["query"], case["backend"], evs)
+        check(case["query"], case["backend"], evs, name_counter=case.get("name_counter"))
     except Violation as v:
         return [{"key": v.key, "what": v.what}]
     except Discard:
